@@ -25,8 +25,9 @@ class Scenario:
 
     def __init__(self, source, signals=(), mode="run", layout=None, default_answer=None, answers=None,
                  fail_at=(), layout_at=None, override_write=True, max_rows=2000, show_vars=False, echo=False,
-                 load=None, repeat_parse=1, render=False, stop_on_err=True, note="", expect=None, abandon=None):
+                 load=None, repeat_parse=1, render=False, stop_on_err=True, note="", expect=None, abandon=None, pre_layouts=None):
         self.abandon = abandon
+        self.pre_layouts = pre_layouts or []
         self.expect = expect or {}
         self.source = source
         self.signals = list(signals)   # (kind, name, bits, default) kind in in/out/bidir; default int|'Z'|None
@@ -75,6 +76,8 @@ class Scenario:
             out.append("LOAD %s" % self.load)
         if getattr(self, "abandon", None) is not None:
             out.append("ABANDON %d" % self.abandon)
+        for lay in getattr(self, "pre_layouts", []):
+            out.append("PRE_LAYOUT " + " ".join(_hex(x) for x in lay))
         return "\n".join(out) + "\n"
 
     def to_json(self):
@@ -82,7 +85,7 @@ class Scenario:
                 "default_answer": self.default_answer, "answers": {str(k): v for k, v in self.answers.items()},
                 "fail_at": self.fail_at, "layout_at": {str(k): v for k, v in self.layout_at.items()},
                 "override_write": self.override_write, "note": self.note, "echo": self.echo,
-                "load": self.load, "repeat_parse": self.repeat_parse, "expect": self.expect, "abandon": getattr(self, "abandon", None),
+                "load": self.load, "repeat_parse": self.repeat_parse, "expect": self.expect, "abandon": getattr(self, "abandon", None), "pre_layouts": getattr(self, "pre_layouts", []),
                 "scenario_text": self.text()}
 
 
